@@ -146,9 +146,14 @@ fn gen_case(rng: &mut Rng) -> Case {
         if !tag.ends_with("/>") || ctx < 2 || ctx == 4 {
             doc.extend(format!("</{name}>").as_bytes());
         }
-        if changes_ns_context(name) && ctx >= 2 {
+        if changes_ns_context(name) && ctx >= 2 && ctx != 4 {
             // integration points / breakout tags change the namespace context: skip the ns clause
             mode = String::from("plain");
+        }
+        if ctx == 4 && rng.chance(1, 3) {
+            // a stray end tag named after an integration point of the *other* vocabulary (or of
+            // this one) is ignored inside the HTML content of <foreignObject>
+            doc.extend(rng.pick(&["</mi>", "</mtext>", "</mo>", "</desc>", "</title>", "</annotation-xml>"]).as_bytes());
         }
     }
     doc.extend(close.as_bytes());
@@ -179,6 +184,10 @@ fn gen_case(rng: &mut Rng) -> Case {
             }
             i += 1;
         }
+    }
+    if ctx == 4 && mode == "ns" {
+        // everything inside <svg><foreignObject> is HTML content, whatever its name
+        mode = String::from("ns4");
     }
     let mut sc = Scenario::new(doc);
     sc.encoding = label.to_string();
@@ -270,6 +279,7 @@ impl Property for C16 {
         if sc.handlers.len() != 1 {
             return Err(HarnessError("C16 expects one element handler".into()));
         }
+        let mut pending_known: Option<Fail> = None;
         let mut i = 0;
         while i < h.evs.len() {
             let Ev::Handler { unit: Unit::Element { name, name_pc, attrs, ns, self_closing, can_have_content, loc, .. }, .. } = &h.evs[i] else {
@@ -303,7 +313,18 @@ impl Property for C16 {
             // by accident (an unquoted `>` ending a tag early) or by shrinking voids the premise
             let foreign_doc = cap.toks.iter().any(|t| matches!(t, tokens::Tok::Start { name, .. } if name.eq_ignore_ascii_case("svg") || name.eq_ignore_ascii_case("math")));
             let ns_known = !foreign_doc || !cap.toks.iter().any(|t| matches!(t, tokens::Tok::Start { name, .. } | tokens::Tok::End { name, .. } if changes_ns_context(name)));
-            if case.mode == "ns" && ns_known {
+            // "ns4": the generated <svg …><foreignObject>…html…</foreignObject></svg> shape, checked
+            // on the token stream (one svg, one foreignObject, no nested svg/math, nothing that the
+            // HTML tree builder would treat specially inside the integration point)
+            let ns4 = case.mode == "ns4" && {
+                let starts: Vec<&str> = cap.toks.iter().filter_map(|t| if let tokens::Tok::Start { name, .. } = t { Some(name.as_str()) } else { None }).collect();
+                starts.len() >= 2
+                    && starts[0].eq_ignore_ascii_case("svg")
+                    && starts[1].eq_ignore_ascii_case("foreignobject")
+                    && !starts[2..].iter().any(|n| ["svg", "math", "foreignobject", "desc", "title", "mi", "mo", "mn", "ms", "mtext", "annotation-xml"].iter().any(|x| n.eq_ignore_ascii_case(x)))
+                    && cap.toks.iter().filter(|t| matches!(t, tokens::Tok::End { name, .. } if name.eq_ignore_ascii_case("foreignobject") || name.eq_ignore_ascii_case("svg"))).count() <= 2
+            };
+            if (case.mode == "ns" && ns_known) || ns4 {
                 if let Some(n) = t.nodes.iter().position(|n| n.loc == *loc) {
                     let want_ns = expected_ns(&t, n);
                     if want_ns != *ns {
@@ -311,11 +332,23 @@ impl Property for C16 {
                         let ip = (want_ns == SVG_NS && matches!(name.as_str(), "foreignobject" | "desc" | "title"))
                             || (want_ns == MATHML_NS && matches!(name.as_str(), "mi" | "mo" | "mn" | "ms" | "mtext" | "annotation-xml"));
                         if ip && *ns == HTML_NS && !r.self_closing {
-                            return Ok(Err(Fail::known("C16.read", detail, "integration_point_element_reports_html_ns")));
+                            // known finding: remember it and keep checking what follows, so that it
+                            // cannot hide a different failure later in the same document
+                            pending_known.get_or_insert(Fail::known("C16.read", detail, "integration_point_element_reports_html_ns"));
+                        } else if ns4
+                            && want_ns == HTML_NS
+                            && *ns == SVG_NS
+                            && cap.toks.iter().any(|t| matches!(t, tokens::Tok::End { name, loc: l, .. } if l.0 < loc.0 && (name.eq_ignore_ascii_case("title") || name.eq_ignore_ascii_case("desc"))))
+                        {
+                            // known finding: a stray </title> or </desc> inside <foreignObject> is
+                            // taken for the end of an SVG integration point
+                            pending_known = Some(Fail::known("C16.read", detail, "stray_integration_point_end_tag_leaves_html_ns"));
+                        } else {
+                            return Ok(Err(Fail::new("C16.read", detail)));
                         }
-                        return Ok(Err(Fail::new("C16.read", detail)));
+                    } else {
+                        st.bump("c16.namespace_checked");
                     }
-                    st.bump("c16.namespace_checked");
                 }
             }
             // script results: model of the attribute list and name
@@ -398,6 +431,9 @@ impl Property for C16 {
                 }
             }
             i = j;
+        }
+        if let Some(f) = pending_known {
+            return Ok(Err(f));
         }
         Ok(Ok(()))
     }
